@@ -417,6 +417,10 @@ def _await_descriptor_upload(tor_protocol, onion, progress, await_all_uploads):
     attempted_uploads = set()
     confirmed_uploads = set()
     failed_uploads = set()
+    # directories with an upload that is neither confirmed nor failed
+    # yet (Tor may upload to a directory again, whether the previous
+    # upload there failed or succeeded)
+    outstanding_uploads = set()
     uploaded = defer.Deferred()
     await_all = False if await_all_uploads is None else await_all_uploads
 
@@ -453,6 +457,7 @@ def _await_descriptor_upload(tor_protocol, onion, progress, await_all_uploads):
         if subtype == 'UPLOAD':
             if hostname_matches('{}.onion'.format(args[1])):
                 attempted_uploads.add(args[3])
+                outstanding_uploads.add(args[3])
                 # Tor may try a directory again after a failure: that
                 # upload is outstanding again
                 failed_uploads.discard(args[3])
@@ -471,6 +476,7 @@ def _await_descriptor_upload(tor_protocol, onion, progress, await_all_uploads):
             # (i.e. instead of matching to "attempted_uploads")
             if args[3] in attempted_uploads:
                 confirmed_uploads.add(args[3])
+                outstanding_uploads.discard(args[3])
                 log.msg("Uploaded '{}' to '{}'".format(args[1], args[3]))
                 translate_progress(
                     "wait_descriptor",
@@ -478,7 +484,7 @@ def _await_descriptor_upload(tor_protocol, onion, progress, await_all_uploads):
                 )
                 if not uploaded.called:
                     if await_all:
-                        if (len(failed_uploads) + len(confirmed_uploads)) == len(attempted_uploads):
+                        if not outstanding_uploads:
                             uploaded.callback(onion)
                     else:
                         uploaded.callback(onion)
@@ -488,11 +494,12 @@ def _await_descriptor_upload(tor_protocol, onion, progress, await_all_uploads):
             # upload failure -- e.g. a failed *fetch* of our descriptor)
             if hostname_matches('{}.onion'.format(args[1])) and args[3] in attempted_uploads:
                 failed_uploads.add(args[3])
+                outstanding_uploads.discard(args[3])
                 translate_progress(
                     "wait_descriptor",
                     "Failed upload to {}".format(args[3])
                 )
-                if failed_uploads == attempted_uploads:
+                if failed_uploads == attempted_uploads and not confirmed_uploads:
                     msg = "Failed to upload '{}' to: {}".format(
                         args[1],
                         ', '.join(failed_uploads),
@@ -500,7 +507,7 @@ def _await_descriptor_upload(tor_protocol, onion, progress, await_all_uploads):
                     uploaded.errback(RuntimeError(msg))
                 elif await_all and confirmed_uploads and not uploaded.called:
                     # this failure may have been the last outstanding upload
-                    if (len(failed_uploads) + len(confirmed_uploads)) == len(attempted_uploads):
+                    if not outstanding_uploads:
                         uploaded.callback(onion)
 
     # the first 'yield' should be the add_event_listener so that a
